@@ -121,6 +121,41 @@ func main() {
 		}
 		fmt.Printf("%d obligations (%.1fs)\n", len(obs), time.Since(start).Seconds())
 		os.Exit(code)
+	case "classes":
+		// prints, per rule, the clause classes that produce obligations on the tree at -repo (the reference for
+		// expected_classes.json; regenerate on the clean tree only)
+		c, err := load(*repo)
+		if err != nil {
+			fmt.Println("load failed:", err)
+			os.Exit(1)
+		}
+		c.Tier = *tier
+		out := map[string][]string{}
+		var names []string
+		for n := range rules {
+			names = append(names, n)
+		}
+		sort.Strings(names)
+		for _, n := range names {
+			set := map[string]bool{}
+			for _, o := range runRule(c, rules[n]) {
+				cl := keyClass(o.Key)
+				switch cl {
+				case "census", "anchor", "checker-panic", "clause-missing", "model":
+					continue
+				}
+				set[cl] = true
+			}
+			var cls []string
+			for k := range set {
+				cls = append(cls, k)
+			}
+			sort.Strings(cls)
+			out[n] = cls
+		}
+		b, _ := json.MarshalIndent(out, "", " ")
+		fmt.Println(string(b))
+		os.Exit(0)
 	case "replay":
 		if fs.NArg() < 1 {
 			fmt.Println("usage: sverif replay <file>")
